@@ -310,7 +310,7 @@ def run(ctx):
         ctx.count(f'leaves:{len(t.leaves)}')
         dom = domain(t)
         ps = [('domain', f'ChkDom t_ {gbool(wf_tree_py(t))}')]
-        lets = [f'let t_ := {gtree(t)} in']
+        lets = [f'let t_ : tree := {gtree(t)} in']
         # --- printer
         try:
             line = auto_of(t)
@@ -328,7 +328,7 @@ def run(ctx):
                 ctx.fail('unprintable', f'auto_of raises KeyError on a tree of the domain: {sig!r}', {'tree': repr(sig)})
             finish_case(lets, ps, kind, sig)
             return
-        lets.append(f'let ln_ := {lit(line)} in')
+        lets.append(f'let ln_ : text := {lit(line)} in')
         ps.append(('print', 'ChkPrint t_ (Some ln_)'))
         printed.append(line)
         has_pos = all('pos' in l.token for l in t.leaves)
@@ -342,8 +342,8 @@ def run(ctx):
         ctx.count(f'read:{out}')
         files = f'[{lit("ID=1" + chr(10))}; ln_ ++ [10]]'
         if out == 'ok' and len(res) == 1:
-            lets.append(f'let tb_ := {guess_table([r.tree for r in res])} in')
-            lets.append(f'let r_ := {gtree(res[0].tree)} in')
+            lets.append(f'let tb_ : gtab := {guess_table([r.tree for r in res])} in')
+            lets.append(f'let r_ : tree := {gtree(res[0].tree)} in')
             ps.append(('read', f'ChkFile tb_ {files} (Some [({lit(res[0].name)},{gtoks(res[0])},r_)])'))
         elif out == 'ok':
             ps.append(('read', f'ChkFile {guess_table([r.tree for r in res])} {files} (Some {glist(res, gres)})'))
